@@ -68,6 +68,26 @@ static __thread ws_t serial_ws[MAXSERIAL];
 static __thread int serial_top = 0;
 static __thread int serial_depth = 0; /* >0: inside a serialised region started outside any team */
 
+/* built-in replay chooser + log of choice points: lives in this (uninstrumented) translation unit so that ThreadSanitizer does not
+   see the explorer's bookkeeping, which is touched by whichever team thread reaches a choice point */
+#define MAXLOG (1 << 18)
+static vomp_logged_point replay_log[MAXLOG];
+static int replay_log_len = 0, replay_on = 0, replay_paused = 0, replay_diverged = 0, replay_overflow = 0;
+static const int* replay_prefix = NULL;
+static int replay_prefix_n = 0;
+void vomp_replay_begin(const int* prefix, int n)
+{
+  replay_prefix = prefix; replay_prefix_n = n; replay_log_len = 0; replay_diverged = 0; replay_overflow = 0; replay_paused = 0; replay_on = 1;
+}
+void vomp_replay_pause(int on) { replay_paused = on; }
+int vomp_replay_end(const vomp_logged_point** log, int* diverged)
+{
+  replay_on = 0;
+  if (log) *log = replay_log;
+  if (diverged) *diverged = replay_diverged || replay_overflow;
+  return replay_log_len;
+}
+
 vomp_stats_t* vomp_stats(void) { return &stats; }
 void vomp_set_chooser(vomp_chooser c, void* user) { chooser = c; chooser_user = user; }
 void vomp_set_observer(vomp_observer o, void* user) { observer = o; observer_user = user; }
@@ -136,7 +156,23 @@ static void sched(int kind, const char* site, const void* obj, int leaving /* 1:
   if (n > 1)
     {
       stats.choice_points++;
-      if (chooser)
+      if (replay_on && !replay_paused)
+        {
+          const int pos = replay_log_len;
+          if (pos < replay_prefix_n)
+            {
+              choice = replay_prefix[pos];
+              if (choice < 0 || choice >= n) { replay_diverged = 1; choice = 0; }
+            }
+          if (pos < MAXLOG)
+            {
+              vomp_logged_point lp = { me->id, kind, n, me_enabled, choice, enabled[choice], site };
+              replay_log[replay_log_len++] = lp;
+            }
+          else
+            replay_overflow = 1;
+        }
+      else if (chooser)
         {
           vomp_point p = { me->id, kind, site, obj, n, me_enabled };
           choice = chooser(chooser_user, &p, enabled);
